@@ -8,6 +8,7 @@ import translate_ks
 import translate_mixins
 import translate_parametric
 import translate_free
+import translate_kernels
 
 
 def gen_arith():
@@ -38,4 +39,8 @@ def gen_free():
     return translate_free.translate(os.path.join(PKG, "pba/pbox_free.py"))
 
 
-ALL = [("GenFree", gen_free), ("GenParametric", gen_parametric), ("GenDispatch", gen_dispatch), ("GenArith", gen_arith), ("GenParams", gen_params), ("GenHedge", gen_hedge), ("GenKS", gen_ks)]
+def gen_kernels():
+    return translate_kernels.translate(os.path.join(PKG, "pba/operation.py"))
+
+
+ALL = [("GenKernels", gen_kernels), ("GenFree", gen_free), ("GenParametric", gen_parametric), ("GenDispatch", gen_dispatch), ("GenArith", gen_arith), ("GenParams", gen_params), ("GenHedge", gen_hedge), ("GenKS", gen_ks)]
